@@ -29,11 +29,14 @@ type Contract struct {
 	Ensures    []*Clause
 	Assigns    []string // raw designators; nil means unspecified
 	HasAssigns bool
+	Modifies    []*Clause // object-level frame: expressions (evaluated in the pre-state) denoting the only pre-existing objects that may be written
+	HasModifies bool
 	LoopInv    map[int][]*Clause
 	LoopDec    map[int]*Clause
 	LoopMod    map[int][]string
 	Decreases  *Clause
 	Trusted    bool // body not verified (external / assumed contract)
+	SplitPaths bool // top-level if statements are followed path by path instead of merged
 	Pure       bool
 	Params     []GhostParam // for trusted externals declared with a signature
 	Results    []GhostParam
@@ -99,8 +102,8 @@ type SpecFile struct {
 }
 
 var clauseKw = map[string]bool{
-	"func": true, "requires": true, "ensures": true, "assigns": true, "loop": true, "decreases": true,
-	"ghost": true, "after": true, "before": true, "uf": true, "lemma": true, "axiom": true, "trusted": true, "pure": true, "opaque": true,
+	"func": true, "requires": true, "ensures": true, "assigns": true, "modifies": true, "loop": true, "decreases": true,
+	"ghost": true, "after": true, "before": true, "uf": true, "lemma": true, "axiom": true, "trusted": true, "pure": true, "split-paths": true, "opaque": true,
 	"sort": true, "closedtype": true, "ghostvar": true, "ghostfield": true, "free": true, "extern": true, "assume-note": true, "end": true,
 }
 
@@ -230,6 +233,26 @@ func ParseSpecFile(path, pkgName, pkgPath string, sf *SpecFile) error {
 				if d != "" && d != "nothing" {
 					cur.Assigns = append(cur.Assigns, d)
 				}
+			}
+		case "modifies":
+			if cur == nil {
+				return fmt.Errorf("%s:%d: modifies outside func", path, rc.line)
+			}
+			cur.HasModifies = true
+			for _, d := range splitTopLevel(rest, ',') {
+				d = strings.TrimSpace(d)
+				if d == "" || d == "nothing" {
+					continue
+				}
+				e, err := parseSpecExpr(d, path, rc.line)
+				if err != nil {
+					return err
+				}
+				cur.Modifies = append(cur.Modifies, &Clause{Kind: "modifies", Text: d, Expr: e, Line: rc.line, File: path})
+			}
+		case "split-paths":
+			if cur != nil {
+				cur.SplitPaths = true
 			}
 		case "trusted":
 			if cur != nil {
